@@ -4,6 +4,7 @@ Quantification: every history of {child exits, registrations, SIGCHLD handler ru
 children, in any order.
 -/
 import TornadoModel.C42.Lemmas
+import TornadoModel.C42.Rereg
 namespace TornadoModel.C42
 
 /-! ### status decoding -/
@@ -59,16 +60,6 @@ theorem hist_fold (c : Nat) (ops : List Op) (h : Hist) :
         simp [hstep, hd, Spec.regsOf, Spec.firstExit, Spec.sigAfter, Spec.isSigchld, hf]
     | sigchld => cases hf : h.fe <;> simp [hstep, Spec.regsOf, Spec.firstExit, Spec.sigAfter, Spec.isSigchld, hf]
     | drain => cases hf : h.fe <;> simp [hstep, Spec.regsOf, Spec.firstExit, Spec.sigAfter, Spec.isSigchld, hf]
-
-def doneCalls (c r st : Nat) : List Call :=
-  match decodeStatus st with
-  | some code => [{ child := c, reg := r, code := code, cleared := true }]
-  | none => []
-
-def doneFuts (c r : Nat) (m : Mode) (st : Nat) : List (Nat × Nat × Fut) :=
-  match decodeStatus st with
-  | some code => (match futOf m code with | some f => [(c, r, f)] | none => [])
-  | none => []
 
 /-- what the model may look like for child `c` after a history with registrations `h.regs` and first exit `h.fe` -/
 def Good (c : Nat) (h : Hist) (v : View) : Prop :=
@@ -129,7 +120,7 @@ theorem good_step (c : Nat) (h : Hist) (v : View) (op : Op) (hg : Good c h v) :
           | none => simp_all [hstep, vstep, vSet, doneCalls, doneFuts]
           | some code =>
             simp_all [hstep, vstep, vSet, doneCalls, doneFuts]
-            cases futOf m code <;> rfl
+            try (cases futOf m code <;> rfl)
         · simp_all [Good, hstep, vstep]
           exact ⟨r, rfl, rfl⟩
   · -- registered more than once: nothing is claimed
@@ -172,12 +163,12 @@ theorem settle (c : Nat) (m : Mode) (st : Nat) (sig : Bool) (v : View)
     | none => simp_all [vstep, vTry, vSet, doneCalls, doneFuts]
     | some code =>
       simp_all [vstep, vTry, vSet, doneCalls, doneFuts]
-      cases futOf m code <;> rfl
+      try (cases futOf m code <;> rfl)
   · cases hd : decodeStatus st with
     | none => simp_all [vstep, vTry, vSet, doneCalls, doneFuts]
     | some code =>
       simp_all [vstep, vTry, vSet, doneCalls, doneFuts]
-      cases futOf m code <;> rfl
+      try (cases futOf m code <;> rfl)
   · simp_all [vstep, vTry, vSet]
 
 /-- … and if the SIGCHLD handler has already run since the exit, one drain is enough -/
@@ -194,7 +185,7 @@ theorem settle_drain (c : Nat) (m : Mode) (st : Nat) (v : View)
     | none => simp_all [vstep, vSet, doneCalls, doneFuts]
     | some code =>
       simp_all [vstep, vSet, doneCalls, doneFuts]
-      cases futOf m code <;> rfl
+      try (cases futOf m code <;> rfl)
   · simp_all [vstep, vSet]
 
 theorem view_settled (ops : List Op) (c : Nat) :
@@ -421,5 +412,166 @@ theorem callback_at_most_once (c : Nat) (ops : List Op) : ((callsOf (run ops) c)
   have h := this ops _ h0
   rw [← view_run_gen] at h
   exact h.1
+
+/-! ### signal deaths through `wait_for_exit` -/
+
+/-- **wait_for_exit_signal_death**: a child killed by a signal (`st % 128` = the signal number, 1..126; core-dump flag
+and upper byte arbitrary) whose exit is awaited with `wait_for_exit(raise_error)`: once delivered and drained, the
+future has failed with `CalledProcessError(-signal)` when `raise_error` is set, and resolved with the *negative*
+signal number when it is not — exactly once. -/
+theorem wait_for_exit_signal_death (c : Nat) (re : Bool) (ops : List Op) (st : Nat)
+    (hreg : Spec.regsOf c ops = [.wait re]) (hfe : Spec.firstExit c ops = some st)
+    (h0 : st % 128 ≠ 0) (h1 : st % 128 ≠ 127) (hdel : Delivered c ops) :
+    (futsOf (run (ops ++ [.drain])) c).map (·.2.2) =
+      [if re then .calledProcessError (-(Int.ofNat (st % 128))) else .result (-(Int.ofNat (st % 128)))] ∧
+    (callsOf (run (ops ++ [.drain])) c).map (·.code) = [-(Int.ofNat (st % 128))] := by
+  have hrc : Spec.returncode st = some (-(Int.ofNat (st % 128))) := by
+    simp [Spec.returncode, h0, h1]
+  have hne : -(Int.ofNat (st % 128)) ≠ 0 := by
+    simp only [Int.ofNat_eq_natCast, ne_eq, Int.neg_eq_zero]
+    omega
+  refine ⟨?_, ?_⟩
+  · rw [wait_for_exit_outcome c (.wait re) ops hreg hdel]
+    simp only [Spec.expect, hfe, hrc, Option.toList_some, List.filterMap_cons, List.filterMap_nil]
+    have hne' : ¬ ((st : Int) % 128 = 0) := by omega
+    cases re <;> simp [Spec.futOutcome, hne, hne']
+  · rw [(callback_exactly_once c (.wait re) ops hreg hdel).1]
+    simp [Spec.expect, hfe, hrc]
+
+example : Spec.regsOf 0 [.reg 0 (.wait true), .exit 0 (128 + 11), .sigchld] = [.wait true] ∧
+    Spec.firstExit 0 [.reg 0 (.wait true), .exit 0 (128 + 11), .sigchld] = some 139 ∧
+    Delivered 0 [.reg 0 (.wait true), .exit 0 (128 + 11), .sigchld] := by
+  simp [Delivered, Spec.sigAfter, Spec.isSigchld, Spec.regsOf, Spec.firstExit]
+example : (futsOf (run ([.reg 0 (.wait true), .exit 0 (128 + 11), .sigchld] ++ [.drain])) 0).map (·.2.2)
+    = [.calledProcessError (-11)] := by decide
+
+/-! ### any number of registrations: replacement before the report, re-registration after it -/
+
+/-- the exit of `c` (if any) has been noticed by tornado: the SIGCHLD handler ran at some point after it, or the child
+was registered at some point after it (`set_exit_callback` reaps immediately) -/
+def Noticed (c : Nat) (ops : List Op) : Prop :=
+  Spec.firstExit c ops = none ∨ Spec.sigAfter c ops = true ∨ regAfter c ops = true
+
+/-- **exit_reported_at_most_once**: in every history whatsoever — any number of registrations, re-registrations,
+duplicate exit events, handler runs — at most ONE exit-callback invocation and at most one settled `wait_for_exit`
+future exist per child (stronger than `callback_at_most_once`, which is per registration). -/
+theorem exit_reported_at_most_once (c : Nat) (ops : List Op) :
+    (callsOf (run ops) c).length ≤ 1 ∧ (futsOf (run ops) c).length ≤ 1 :=
+  goodN_le_one c _ _ (goodN_after c ops)
+
+/-- **callback_exactly_once_any_regs** (extends `callback_exactly_once` from one registration to any number ≥ 1, and
+from "SIGCHLD after the exit" to "SIGCHLD *or a registration* after the exit"): after one more drain the child's exit
+has been reported by exactly one callback invocation in total, with the decoded status (none if it has not exited),
+`_exit_callback` cleared; exactly one of the child's `wait_for_exit` futures (if the reporting registration was one)
+is settled, as the property demands for that registration's `raise_error`. -/
+theorem callback_exactly_once_any_regs (c : Nat) (ops : List Op) (hreg : Spec.regsOf c ops ≠ [])
+    (hn : Noticed c ops) :
+    (callsOf (run (ops ++ [.drain])) c).map (·.code) = Spec.expect c ops ∧
+    (∀ k ∈ callsOf (run (ops ++ [.drain])) c, k.cleared = true) ∧
+    ∃ m ∈ Spec.regsOf c ops,
+      (futsOf (run (ops ++ [.drain])) c).map (·.2.2) = (Spec.expect c ops).filterMap (Spec.futOutcome m) := by
+  have hg := goodN_step c _ _ .drain (goodN_after c ops)
+  have hc : callsOf (run (ops ++ [.drain])) c = (view (run (ops ++ [.drain])) c).calls := rfl
+  have hf : futsOf (run (ops ++ [.drain])) c = (view (run (ops ++ [.drain])) c).futs := rfl
+  rw [hc, hf, view_drained]
+  have hexp : Spec.expect c ops = ((Spec.firstExit c ops).bind decodeStatus).toList := by
+    unfold Spec.expect
+    cases Spec.firstExit c ops with
+    | none => rfl
+    | some st => simp [status_decoding]
+  have hfo : ∀ m, Spec.futOutcome m = futOf m := fun m => funext fun code => (futOf_eq_spec m code).symm
+  have := settledN c _ _ hg (drain_q_nil c _) hreg (by
+    rcases hn with h | h | h
+    · exact Or.inl h
+    · exact Or.inr (Or.inl h)
+    · exact Or.inr (Or.inr h))
+  simp only [hstepN] at this
+  obtain ⟨h1, h2, m, hm, h3⟩ := this
+  rw [hexp]
+  exact ⟨h1, h2, m, hm, by rw [hfo m]; exact h3⟩
+
+-- replacement before the report: two registrations, then exit, handler, drain → one call (of the later one)
+example : Spec.regsOf 0 [.reg 0 .cb, .reg 0 (.wait false), .exit 0 256, .sigchld] ≠ [] ∧
+    Noticed 0 [.reg 0 .cb, .reg 0 (.wait false), .exit 0 256, .sigchld] := by
+  simp [Noticed, Spec.regsOf, Spec.firstExit, Spec.sigAfter, Spec.isSigchld]
+example : (callsOf (run ([.reg 0 .cb, .reg 0 (.wait false), .exit 0 256, .sigchld] ++ [.drain])) 0).map (fun k => (k.reg, k.code))
+    = [(1, 1)] := by decide
+-- exit before registration and no SIGCHLD handler run at all: `Noticed` through the registration
+example : Noticed 0 [.exit 0 9, .reg 0 .cb] ∧ ¬ Delivered 0 [.exit 0 9, .reg 0 .cb] := by
+  simp [Noticed, Delivered, regAfter, Spec.regsOf, Spec.firstExit, Spec.sigAfter, Spec.isSigchld]
+
+/-- **drain_fires_installed_callback**: which callback a loop iteration fires — exactly the one installed in
+`_exit_callback` at that moment (i.e. the child's latest registration), with the decoded queued status. -/
+theorem drain_fires_installed_callback (c : Nat) (ops : List Op) :
+    callsOf (run (ops ++ [.drain])) c = callsOf (run ops) c ++
+      (match (view (run ops) c).q, ((run ops).subs c).exitCb with
+       | [st], some (r, _) => doneCalls c r st
+       | _, _ => []) := by
+  have hc : callsOf (run (ops ++ [.drain])) c = (view (run (ops ++ [.drain])) c).calls := rfl
+  rw [hc, view_drained]
+  exact drain_fires_installed c _ _ (goodN_after c ops)
+
+/-- **registration_after_exit**: the precise behaviour of a registration made after the child's exit (first *or*
+later registration; decodable status): at the next loop iteration the new callback fires — exactly once, with the
+decoded code, no SIGCHLD needed — **iff** the exit had not already been reported to an earlier registration; if it
+had, the invocation log does not change: the new callback does not fire. -/
+theorem registration_after_exit (c : Nat) (m : Mode) (ops : List Op) (st : Nat) (code : Int)
+    (hfe : Spec.firstExit c ops = some st) (hcode : Spec.returncode st = some code) :
+    callsOf (run (ops ++ [.reg c m, .drain])) c =
+      if callsOf (run ops) c = [] then [{ child := c, reg := (run ops).nregs, code := code, cleared := true }]
+      else callsOf (run ops) c := by
+  have hv : view (run (ops ++ [.reg c m, .drain])) c = vstep c (vstep c (view (run ops) c) (.reg c m)) .drain := by
+    simp [run, List.foldl_append, view_step]
+  have hc : callsOf (run (ops ++ [.reg c m, .drain])) c = (view (run (ops ++ [.reg c m, .drain])) c).calls := rfl
+  rw [hc, hv]
+  exact reg_after_exit_view c _ _ m st code (goodN_after c ops) hfe (by rw [status_decoding]; exact hcode)
+
+/-- **reregistration_after_report_never_fires**: once a callback of child `c` has fired, a new registration
+(`set_exit_callback` or `wait_for_exit`) is never invoked, whatever happens afterwards (`more`: further exits events,
+SIGCHLD handler runs, drains, registrations): the invocation log and the settled futures of `c` stay what they were —
+a late `wait_for_exit` future stays pending forever.  If `c` is not registered yet again, the dead callback stays
+installed in `_exit_callback` and `c` stays in `Subprocess._waiting` (it is never released). -/
+theorem reregistration_after_report_never_fires (c : Nat) (m' : Mode) (ops more : List Op)
+    (hfired : callsOf (run ops) c ≠ []) :
+    callsOf (run (ops ++ .reg c m' :: more)) c = callsOf (run ops) c ∧
+    futsOf (run (ops ++ .reg c m' :: more)) c = futsOf (run ops) c ∧
+    (Spec.regsOf c more = [] →
+      ((run (ops ++ .reg c m' :: more)).subs c).exitCb = some ((run ops).nregs, m') ∧
+      (run (ops ++ .reg c m' :: more)).waiting.contains c = true) := by
+  obtain ⟨hp, hq⟩ := fired_reported c _ _ (goodN_after c ops) hfired
+  have hv : view (run (ops ++ .reg c m' :: more)) c = more.foldl (vstep c) (vstep c (view (run ops) c) (.reg c m')) := by
+    simp [run, List.foldl_append, view_step, view_run_gen]
+  have hc : callsOf (run (ops ++ .reg c m' :: more)) c = (view (run (ops ++ .reg c m' :: more)) c).calls := rfl
+  have hf : futsOf (run (ops ++ .reg c m' :: more)) c = (view (run (ops ++ .reg c m' :: more)) c).futs := rfl
+  have hs : (run (ops ++ .reg c m' :: more)).subs c = (view (run (ops ++ .reg c m' :: more)) c).sub := rfl
+  have hw : (run (ops ++ .reg c m' :: more)).waiting.contains c = (view (run (ops ++ .reg c m' :: more)) c).inW := rfl
+  obtain ⟨g1, g2, g3, g4⟩ := reported_absorbing c _ (.reg c m') hp hq
+  obtain ⟨k1, k2, k3, k4⟩ := reported_absorbing_run c more _ g1 g2
+  rw [hc, hf, hs, hw, hv]
+  refine ⟨k3.trans g3, k4.trans g4, fun hno => ?_⟩
+  obtain ⟨n1, n2⟩ := reported_absorbing_noreg_run c more _ g1 g2 hno
+  rw [n1, n2]
+  have hp' : ((run ops).subs c).proc = .reaped := hp
+  simp [vstep, vTry, hp', view]
+
+/-- the wish "a second registration made after the first callback fired is called as well (exactly once)" -/
+def reregistration_after_report_fires_full : Prop :=
+  ∀ (c : Nat) (m m' : Mode) (ops : List Op), Spec.regsOf c ops = [m] → callsOf (run ops) c ≠ [] →
+    (callsOf (run (ops ++ [.reg c m', .sigchld, .drain])) c).length = 2
+
+/-- … is false for `Subprocess` as it is: `waitpid` on the already reaped child raises ChildProcessError, which
+`_try_cleanup_process` swallows, so the late callback is never scheduled. -/
+theorem reregistration_after_report_fires_refuted : ¬ reregistration_after_report_fires_full := by
+  intro h
+  have h2 := h 0 .cb (.wait true) [.reg 0 .cb, .exit 0 256, .sigchld, .drain] (by decide) (by decide)
+  have h1 := (reregistration_after_report_never_fires 0 (.wait true) [.reg 0 .cb, .exit 0 256, .sigchld, .drain]
+    [.sigchld, .drain] (by decide)).1
+  rw [h1] at h2
+  revert h2
+  decide
+
+example : callsOf (run [.reg 0 .cb, .exit 0 256, .sigchld, .drain]) 0 ≠ [] := by decide
+example : (futsOf (run ([.reg 0 .cb, .exit 0 256, .sigchld, .drain] ++ .reg 0 (.wait true) :: [.sigchld, .drain, .sigchld, .drain])) 0)
+    = [] := by decide
 
 end TornadoModel.C42
